@@ -349,6 +349,13 @@ func Variants(s *State, thorough bool) []Variant {
 		add(Variant{Id: n + "-del-table-named-twice",
 			Op:    &RawFail{Id: "v", Cls: "delete", Tabs: []string{n}, Text: "DELETE " + n + " FROM " + n + ", " + n},
 			Retry: &Delete{Id: "r", Targets: []string{n}, From: single(n), Where: eq(C(ts.num), LI(safeK))}})
+		// refused because ANOTHER table of the statement cannot be loaded, after this one was
+		add(Variant{Id: n + "-upd-joined-with-unknown-table",
+			Op:    &RawFail{Id: "v", Cls: "update", Tabs: []string{n}, Text: "UPDATE " + n + " SET " + ts.txt + " = 'never' FROM " + n + " CROSS JOIN nosuch"},
+			Retry: &Update{Id: "r", Targets: []string{n}, From: single(n), Sets: []SetItem{set(col(ts.txt), LS("never"))}}})
+		add(Variant{Id: n + "-other-statement-on-unknown-table",
+			Op:    &RawFail{Id: "v", Cls: "insert", Text: "INSERT INTO nosuch VALUES (1)"},
+			Retry: &Update{Id: "r", Targets: []string{n}, From: single(n), Sets: []SetItem{set(col(ts.txt), LS("never"))}}})
 		add(Variant{Id: n + "-ins-unknown-field",
 			Op:    &Insert{Id: "v", Tab: n, Cols: []string{"k", "nosuch"}, Rows: [][]Expr{row(LS("z1"), LI(1))}},
 			Retry: &Insert{Id: "r", Tab: n, Cols: []string{"k"}, Rows: [][]Expr{row(LS("z1"))}}})
@@ -446,6 +453,22 @@ func Variants(s *State, thorough bool) []Variant {
 		add(Variant{Id: "in-ins-short-2nd-row", Late: true,
 			Op:    &Insert{Id: "v", Tab: "STDIN", Rows: [][]Expr{fullr, short}},
 			Retry: &Insert{Id: "r", Tab: "STDIN", Rows: [][]Expr{fullr, fullr}}})
+	}
+	// refused while the tables of the statement are loaded: the table named twice, joined with a table that does not
+	// exist, or a statement that does not name it at all; the corrected statement then takes the table for update again
+	if len(in.Cols) >= 1 {
+		c0 := in.Cols[0]
+		retry := func() Op {
+			return &Update{Id: "r", Targets: []string{"STDIN"}, From: single("STDIN"), Sets: []SetItem{set(col(c0), LS("zz"))}}
+		}
+		add(Variant{Id: "in-upd-table-named-twice",
+			Op: &RawFail{Id: "v", Cls: "update", Tabs: []string{"STDIN"}, Text: "UPDATE STDIN SET " + c0 + " = 'never' FROM STDIN, STDIN"}, Retry: retry()})
+		add(Variant{Id: "in-upd-joined-with-unknown-table",
+			Op: &RawFail{Id: "v", Cls: "update", Tabs: []string{"STDIN"}, Text: "UPDATE STDIN SET " + c0 + " = 'never' FROM STDIN CROSS JOIN nosuch"}, Retry: retry()})
+		add(Variant{Id: "in-other-statement-on-unknown-table",
+			Op: &RawFail{Id: "v", Cls: "insert", Text: "INSERT INTO nosuch VALUES (1)"}, Retry: retry()})
+		add(Variant{Id: "in-select-for-update-of-unknown-table",
+			Op: &RawFail{Id: "v", Cls: "select", Text: "SELECT * FROM nosuch FOR UPDATE"}, Retry: retry()})
 	}
 	add(Variant{Id: "in-upd-unknown-field-2nd-set-item", Late: true,
 		Op:    &Update{Id: "v", Targets: []string{"STDIN"}, From: single("STDIN"), Sets: []SetItem{set(col("k"), LS("zz")), set(col("nosuch"), LI(1))}},
